@@ -79,7 +79,9 @@ def get_model(obj: T) -> Any:
     Finds model root element for the given object.
     """
     p = obj
-    while hasattr(p, "parent"):
+    # A user class may store ``parent=None`` on the root object: treat a
+    # ``None`` parent like a missing one instead of returning ``None``.
+    while getattr(p, "parent", None) is not None:
         p = p.parent
     return p
 
